@@ -83,6 +83,54 @@ func c13query(k int) c13op {
 	}}
 }
 
+// retained query results: what a query returned must not change afterwards
+var c13retained []struct {
+	name string
+	recs []map[string]interface{}
+	then string
+}
+
+func c13renderAll(recs []map[string]interface{}) string {
+	var parts []string
+	for _, m := range recs {
+		var names []string
+		for n := range m {
+			names = append(names, n)
+		}
+		sort.Strings(names)
+		s := ""
+		for _, n := range names {
+			s += fmt.Sprintf("%s=%v ", n, m[n])
+		}
+		parts = append(parts, s)
+	}
+	sort.Strings(parts)
+	return strings.Join(parts, " | ")
+}
+
+// c13queryAll: GetRecords with no filter (all flows) or a partial filter; the result is retained.
+func c13queryAll(partial bool) c13op {
+	name := "GetRecords(all)"
+	if partial {
+		name = "GetRecords(partial: protocol only)"
+	}
+	return c13op{name, func(ap *intermediate.AggregationProcess) string {
+		var recs []map[string]interface{}
+		if partial {
+			recs = ap.GetRecords(&intermediate.FlowKey{Protocol: 6})
+		} else {
+			recs = ap.GetRecords(nil)
+		}
+		then := c13renderAll(recs)
+		c13retained = append(c13retained, struct {
+			name string
+			recs []map[string]interface{}
+			then string
+		}{name, recs, then})
+		return then
+	}}
+}
+
 var c13numFlows = c13op{"GetNumFlows", func(ap *intermediate.AggregationProcess) string { return fmt.Sprint(ap.GetNumFlows()) }}
 var c13expiry = c13op{"GetExpiry", func(ap *intermediate.AggregationProcess) string {
 	return fmt.Sprint(ap.GetExpiryFromExpirePriorityQueue())
@@ -145,6 +193,7 @@ type c13obs struct {
 func c13sequential(sc *c13scn, order [][2]int) ([]string, string) {
 	vsched.BeginSeq(t0)
 	defer vsched.EndSeq()
+	c13retained = nil
 	ap := sc.setup()
 	res := make([]string, len(order))
 	for i, o := range order {
@@ -198,6 +247,7 @@ func c13Scenario(sc *c13scn) *vsched.Scenario {
 	main := func() {
 		var msgCh chan *entities.Message
 		_ = msgCh
+		c13retained = nil
 		ap := sc.setup()
 		var obs []c13obs
 		var ths []*vsched.Thread
@@ -212,6 +262,11 @@ func c13Scenario(sc *c13scn) *vsched.Scenario {
 			}))
 		}
 		vsched.Join(ths...)
+		for _, r := range c13retained {
+			if now := c13renderAll(r.recs); now != r.then {
+				vsched.Fail("query-result-mutated", "the result of %s changed after it had been returned (it shares storage with the live records):\n  then: %s\n  now:  %s", r.name, r.then, now)
+			}
+		}
 		lastFinal = c13final(ap)
 		last = obs
 		sort.Slice(obs, func(i, j int) bool {
@@ -342,6 +397,26 @@ func c13Scenarios(tier string) []*c13scn {
 			{c13scan(true), c13query(1)},
 		}},
 	}
+	dstWithIP := c13spec(0, aggfix.Dst, 2, 2)
+	dstWithIP.ClusterIP = "10.96.0.10"
+	scs = append(scs,
+		&c13scn{name: "S8-unfiltered-queries-vs-ingest", setup: func() *intermediate.AggregationProcess {
+			ap := mk()
+			ingest(ap, c13spec(1, aggfix.Both, 1, 1))
+			return ap
+		}, threads: [][]c13op{
+			{c13rec("Agg(k1,#2)", c13spec(1, aggfix.Both, 1, 2))},
+			{c13queryAll(false), c13queryAll(true)},
+			{c13rec("Agg(k2,new)", c13spec(2, aggfix.Both, 1, 1))},
+		}},
+		&c13scn{name: "S9-retained-query-result-vs-correlation", setup: func() *intermediate.AggregationProcess {
+			ap := mk()
+			ingest(ap, c13spec(0, aggfix.Src, 2, 1))
+			return ap
+		}, threads: [][]c13op{
+			{c13queryAll(false)},
+			{c13rec("Agg(k0,dst,clusterIP)", dstWithIP)},
+		}})
 	if tier == "thorough" {
 		scs = append(scs, &c13scn{name: "S7-four-threads", setup: func() *intermediate.AggregationProcess {
 			ap := mk()
